@@ -3,7 +3,7 @@ from __future__ import annotations
 
 import ast
 
-from .. import AnalysisError, flow, states, rules
+from .. import AnalysisError, flow, states, rules, gd
 from ..report import Ctx
 
 SSO = "nrel/hive/state/simulation_state/update/step_simulation_ops.py"
@@ -226,6 +226,10 @@ def enqueue_time_writers(ctx: Ctx):
 GRANT_ONLY = ("checkout_charger(", "modify_station(")  # the acquisition of the plug and its commit: what the queue waits for
 
 
+def _as_queued(a: ast.AST):
+    return gd.as_previous(a, "CHARGE_QUEUEING", "ChargeQueueing")
+
+
 def head_of_line(ctx: Ctx):
     """D3: the vehicle at the head of a queue is served when a plug frees only if the plug grant
     (ChargingStation.enter) accepts it. Every condition the grant requires, other than the plug being free, must
@@ -239,7 +243,19 @@ def head_of_line(ctx: Ctx):
         succ = sc.success("enter")
         if not succ:
             raise AnalysisError(f"{name}.enter has no success path")
-        sets = [{(states.ndump(a, ren), pol) for a, pol in m.path.facts()} for m in succ]
+        if name == "ChargingStation":
+            # the grant as seen by a vehicle that is waiting in the queue; conditions that are constant for it drop out
+            sets = []
+            for m in succ:
+                st_ = set()
+                for a, pol in m.path.facts():
+                    a2 = _as_queued(a)
+                    if isinstance(a2, ast.Constant):
+                        continue
+                    st_.add((states.ndump(a2, ren), pol))
+                sets.append(st_)
+        else:
+            sets = [{(states.ndump(a, ren), pol) for a, pol in m.path.facts()} for m in succ]
         need[name] = (sc, set.intersection(*sets))
     plug_sc, plug = need["ChargingStation"]
     q_sc, queue = need["ChargeQueueing"]
